@@ -360,6 +360,12 @@ func parseImplementsAnnotation(
 	} else {
 		// Look up in imports
 		imp := imports.Find(annotation.PackageName)
+		// Go binds an import under its alias, else under the package's declared name.
+		// A match by path component only stands while the declared name is unknown.
+		if imp != nil && imp.PackageName != "" && imp.Alias != annotation.PackageName &&
+			imp.PackageName != annotation.PackageName && imp.FullPath != annotation.PackageName {
+			imp = nil
+		}
 		if imp != nil {
 			annotation.PackageFullPath = imp.FullPath
 			annotation.PackageNotFound = false
